@@ -337,7 +337,9 @@ def real_eval(case: Case, vals, linearize=True, prob_r=None, history=None):
             for wrt in r.in_names:
                 base = np.array(vals[wrt], dtype=float).reshape(r.shapes[wrt])
                 cols = {of: np.zeros((r.size(of), base.size)) for of in r.out_names}
+                hmin = np.ones(base.size)
                 for j in range(base.size):
+                    hmin[j] = 5e-5 * max(1.0, abs(base.ravel()[j]))
                     est = []
                     for h in (1e-4, 5e-5):
                         hh = h * max(1.0, abs(base.ravel()[j]))
@@ -351,9 +353,14 @@ def real_eval(case: Case, vals, linearize=True, prob_r=None, history=None):
                         cols[of][:, j] = (4 * est[1][of] - est[0][of]) / 3.0
                 for of in r.out_names:
                     J.setdefault((of, wrt), {})["J_fd"] = cols[of]
+                    J[(of, wrt)]["hmin"] = hmin
             f0 = f(vals)
             for (of, wrt), e in J.items():
-                e["noise"] = 1e-15 * (1.0 + float(np.max(np.abs(f0[of])))) / 5e-5 * 50
+                fmax = float(np.max(np.abs(f0[of]))) if of in f0 else 1.0
+                hm = e.get("hmin")
+                # round-off noise of the central difference: eps * |f| / h, per column
+                e["noise_col"] = 200 * 2.2e-16 * (fmax + 1e-300) / hm if hm is not None else None
+                e["noise"] = float(np.max(e["noise_col"])) if hm is not None else 1e-15 * (1.0 + fmax) / 5e-5 * 50
             for key, e in J.items():
                 if "J_fwd" not in e:
                     e["J_fwd"] = np.zeros_like(e["J_fd"])
